@@ -388,7 +388,8 @@ fn fault_scenarios(g: &mut Gen, out: &mut Vec<Op>) {
         // one fault in three is of the kind "the PUT landed, the failure is reported afterwards" (the write of
         // storage_meta.cbor that follows db_meta.cbor fails); not for db.create, whose several flushes within
         // one millisecond make it uncertain which of them writes storage_meta at all
-        if kind != 5 && g.rng.chance(1, 3) {
+        // … and not for a server-generated key: if that PUT lands nobody (not even the harness) knows the key
+        if kind != 5 && kind != 2 && g.rng.chance(1, 3) {
             out.push(Op::Fault2(0));
         } else {
             out.push(Op::Fault(k));
